@@ -5,7 +5,7 @@ import sys
 
 from .builtins import builtin_commands
 from .containers import CaseInsensitiveDict
-from .deferred import Promise, wait, BaseDeferred, Deferred, SizedDeferred, DeferredCycle
+from .deferred import Promise, wait, not_ready, BaseDeferred, Deferred, SizedDeferred, DeferredCycle
 from .devices import open_device
 from .formats import file_formats
 from .metacommand_impl import get_as_int
@@ -219,6 +219,9 @@ class Compiler:
             try:
                 return get_as_int(state, "link address", state["insn"], address, bitness=16, unsigned=False)
             except DeferredCycle:
+                # During an eager attempt the cycle may only be apparent, because
+                # symbols that would cancel the base out are not defined yet
+                not_ready()
                 reports.error(
                     "recursive-definition",
                     (state["insn"].ctx_start, state["insn"].ctx_end, f"The link base is mathematically equal to {address.resolve(state)!r},\nwhere LA denotes link base. In other words, the link base depends on itself,\nand thus cannot be determined.")
